@@ -370,10 +370,13 @@ def run_check(modname, tier):
     print(f"[{prop}] tier={tier} cases={n_cases} states={total.states} transitions={total.transitions} evaluations={total.evaluations} nontrivial={total.nontrivial} outcomes={len(total.outcomes)} skipped={sum(total.skipped.values())} wall={wall:.1f}s exhaustive={exhaustive}")
     for kid, (k, n) in listed.items():
         print(f"KNOWN-FINDING: property={prop} {kid}: {k['what']} ({n} cases)")
-    for p, v, n in lines:
+    maxlines = int(os.environ.get("VERIF_MAX_LINES", "40"))
+    for p, v, n in lines[:maxlines]:
         s = v["sig"]
         print(f"VIOLATION property={prop} replay={p}")
         print(f"   {s['check']} {s['cls']}.{s['observable']} [{s['mode']}] x{n}: {str(v['message'])[:400]}")
+    if len(lines) > maxlines:
+        print(f"   ... and {len(lines) - maxlines} more violation signatures (replays written under replays/{prop}/)")
     return 1 if lines else 0
 
 
